@@ -17,7 +17,7 @@ func init() {
 			"pppoe.NewSession", "pppoe.NewSessionManager", "pppoe.SessionManager.CreateSession", "pppoe.SessionManager.GetSession",
 			"pppoe.SessionManager.GetSessionByMAC", "pppoe.SessionManager.RemoveSession", "pppoe.SessionManager.CleanupExpired", "pppoe.SessionManager.unindexLocked",
 			// ebpf/loader.go: relay circuit-id key
-			"ebpf.MakeCircuitIDKey", "ebpf.HashCircuitID",
+			"ebpf.MakeCircuitIDKey", "ebpf.HashCircuitID", "ebpf.Loader.AddCircuitIDSubscriber", "ebpf.Loader.RemoveCircuitIDSubscriber",
 		},
 		Undecided: []string{
 			"pkg/state/store.go (Lease/Session/Subscriber index maintenance) is not under contract",
